@@ -3,7 +3,7 @@ from fractions import Fraction
 from .. import nf, dims, bind
 from ..nf import Poly, Tup, Const, Slice, NONE, TRUE, FALSE
 from ..model import AnalysisError
-from ..rules import run as analyse, returns, fmt, is_app, S, C, pair, root_sym, none_state
+from ..rules import run as analyse, returns, fmt, is_app, S, C, pair, root_sym, none_state, conds_str
 from .prop_flow import wf_attr, WF
 
 
@@ -440,11 +440,30 @@ def run(chk, repo, tier):
     # ---------------------------------------------------------------- C09-h
     f2, p2, _ = analyse(repo, 'propagate._fft2')
     rets = returns(p2)
+    FFT2 = ('fft.fft2', 'scipy.fft.fft2', 'scipy.fftpack.fft2', 'fft.fftn', 'scipy.fft.fftn')
+    SHIFTS = ('fft.fftshift', 'fft.ifftshift', 'scipy.fft.fftshift', 'scipy.fft.ifftshift')
+    if len(rets) > 1:
+        # a special case next to the shifted transform: whatever stands in for the two shifts acts on both axes, so the test
+        # that selects it has to look at both axes of the array (a parity shortcut that asks the row count only is wrong for
+        # even x odd grids, which per-axis pixel scales produce)
+        xs_ = nf.attr(S('x'), 'shape').single_atom()
+        general = [p for p in rets if any(is_app(a_, SHIFTS) for a_ in nf.value_atoms(p.ret))]
+        for p in rets:
+            if p in general:
+                continue
+            axes_ = set()
+            for c_, _pol, _n in p.conds:
+                for a_ in nf.value_atoms(c_):
+                    if a_[0] == 'idx' and a_[1] == xs_ and isinstance(a_[2], Poly) and a_[2].const_value() is not None:
+                        axes_.add(int(a_[2].const_value()))
+            chk.ob('C09-h', 'N-nesting', f2.key, 'a path without the two shifts is selected by looking at both axes',
+                   False if len(axes_) == 1 else None,
+                   f'[{conds_str(p)[:100]}] returns {fmt(p.ret)[:100]}: chosen by the size of axis {sorted(axes_)} only'
+                   if len(axes_) == 1 else f'undecided: [{conds_str(p)[:100]}] is not the shifted transform', f2.loc(p.node))
+        rets = general
     if len(rets) != 1:
         raise AnalysisError('_fft2: expected a single path')
     r = rets[0].ret
-    FFT2 = ('fft.fft2', 'scipy.fft.fft2', 'scipy.fftpack.fft2', 'fft.fftn', 'scipy.fft.fftn')
-    SHIFTS = ('fft.fftshift', 'fft.ifftshift', 'scipy.fft.fftshift', 'scipy.fft.ifftshift')
     nest = None
     norm = None
     ffts = [x for x in nf.value_atoms(r) if is_app(x, FFT2)]
